@@ -134,7 +134,33 @@ Example weblist_former_f25_witness :
   merge_lines None [-20; 9223372036854775797] = [(-20, -19); (9223372036854775797, 9223372036854775798)].
 Proof. vm_compute. reflexivity. Qed.
 
+(* -- symbolization mode (internal/symbolizer/symbolizer.go:50 Symbolize, :276 demanglerModeToOptions) --
+   whatever the -symbolize text, the demangler mode that reaches demanglerModeToOptions is one of the four
+   it knows: its final panic("unknown demanglerMode") is unreachable; unknown options only add a message *)
+Theorem symbolize_mode_never_panics : forall mode, is_panic (symbolize_mode mode) = false.
+Proof. exact symbolize_mode_no_panic. Qed.
+Print Assumptions symbolize_mode_never_panics.
+
+Theorem symbolize_mode_parser_keeps_known_demangler : forall opts st,
+  known_demangle (ss_demangle st) = true -> known_demangle (ss_demangle (snd (sym_opts opts st))) = true.
+Proof. exact sym_opts_known. Qed.
+Print Assumptions symbolize_mode_parser_keeps_known_demangler.
+
+(* the whitelist is what makes it so: any other mode does hit the panic *)
+Theorem unknown_demangler_mode_panics : forall m, known_demangle m = false -> is_panic (demangler_mode_to_options m) = true.
+Proof. exact demangler_unknown_panics. Qed.
+Print Assumptions unknown_demangler_mode_panics.
+
 (* -- non-vacuity and the necessity of the hypotheses -- *)
+Example symbolize_mode_examples :
+  symbolize_mode "demangle=gnu" = Ok (1, "default") /\
+  symbolize_mode "local:demangle=simple" = Ok (1, "default") /\
+  symbolize_mode "force:Demangle=FULL" = Ok (0, "full") /\
+  symbolize_mode "demangle=full,templates:templates" = Ok (1, "templates") /\
+  symbolize_mode "bogus:none:demangle=full" = Ok (1, "none") /\
+  symbolize_mode "::remote:demangle=default" = Ok (0, "default").
+Proof. vm_compute. repeat split; reflexivity. Qed.
+
 Definition su (v : Z) (f t : string) : string := snd (scale unit_types v f t).
 Definition no_pf (s : string) : option term := None.
 
